@@ -12,7 +12,7 @@ from lib.coqterm import cbool, clist, copt
 
 ID = "C38"
 QUICK_N = 1800
-THOROUGH_N = 30000
+THOROUGH_N = 14400
 SHARD = 300
 LOOP_CAP = 40  # = Corr.C38.loop_cap
 REPO = os.environ.get("VERIF_REPO", "/repo")
